@@ -89,4 +89,13 @@ Proof.
   intros Ht Hoff. destruct (pipeline_cells t Ht) as [Hnz Hcol].
   apply (packed_agrees_from_conditions gi t Ht); auto. unfold eof in nsyms_ok. lia.
 Qed.
+
+(* the lexer interface: a token code that `translate` does not know becomes symbol 0 (the default of the switch), and the
+   column of symbol 0 is the error action in every state - an unknown code is a syntax error wherever it arrives *)
+Theorem unknown_code_is_error t : generate_tables gi = inr t ->
+  forall s, s < length (t_aut t) -> dense_action (length (t_aut t)) (t_dense t) s 0 = Error.
+Proof.
+  intros Ht s Hs. destruct (pipeline_cells t Ht) as [_ Hcol]. unfold dense_action. rewrite (Hcol s Hs).
+  unfold decode_z. rewrite Z.eqb_refl. reflexivity.
+Qed.
 End Conds.
